@@ -19,4 +19,5 @@ def run(repo, res, tier):
     from .. import multidict
     multidict.rule_m4(repo, res)
     hookrules.rule_no_hardcoded_containers(repo, res)
+    hookrules.rule_mapping_iteration(repo, res)
     apirules.rule_f1(repo, res, "new")
